@@ -1,6 +1,8 @@
 """Native stand-ins for C15's machine-variable contracts (also replayed from C20m): a wall clock that shows the model's
-`now`.  The data-manager helpers (disk_entry_is, n_saves, posted_change, fs_at ...) have no twin: clauses that use them
-evaluate to None natively and their violations are reported with no-failing-input-found."""
+`now`, and twins of the trace helpers of the machine-variable contracts read from the calls recorded on the stand-ins of
+the data manager (save_all) and the event manager (post).  The file-system helpers of the data-manager contracts (fs_at,
+content, ghost.faults ...) have no twin: clauses that use them evaluate to None natively and their violations are
+reported with no-failing-input-found."""
 from fractions import Fraction
 
 NOW = [0.0]
@@ -34,4 +36,38 @@ def native_helpers(LOG, params, spec):
 
     def now():
         return NOW[0]
-    return {"now": now}
+
+    def _saves():
+        return [c for c in LOG if c.get("method") == "save_all"]
+
+    def _posts():
+        return [c for c in LOG if c.get("method") == "post"]
+
+    def _last_saved():
+        s = _saves()
+        if not s:
+            return None
+        return s[-1]["kwargs"].get("data", s[-1]["args"][0] if s[-1]["args"] else None)
+
+    def disk_entry_is(name, value, expire, expire_secs):
+        d = _last_saved()
+        ent = d.get(name) if isinstance(d, dict) else None
+        if not isinstance(ent, dict) or not all(k in ent for k in ("value", "expire", "expire_secs")):
+            return False
+        return ent["value"] == value and ent["expire"] == expire and ent["expire_secs"] == expire_secs
+
+    def disk_lacks(name):
+        d = _last_saved()
+        return isinstance(d, dict) and name not in d
+
+    def posted_change(name, value, prev):
+        p = _posts()
+        if len(p) != 1:
+            return False
+        kw = dict(p[0]["kwargs"])
+        ev = p[0]["args"][0] if p[0]["args"] else kw.pop("event", None)
+        return set(kw) == {"value", "prev_value", "change"} and ev == "machine_var_" + name and \
+            kw["value"] == value and kw["prev_value"] == prev
+
+    return {"now": now, "n_saves": lambda: len(_saves()), "n_posts": lambda: len(_posts()),
+            "disk_entry_is": disk_entry_is, "disk_lacks": disk_lacks, "posted_change": posted_change}
